@@ -193,8 +193,12 @@ def snpSpec (H : Bytes → Bytes) (fw : Bytes) (secs : List Section) (resetAddr 
 
 /-- (kind, lo, hi, field) in source order: `seg` a VMCB segment register, `le` a little-endian integer,
     `byte8` one byte with a range check, `resv`/`resv64` must-be-zero ranges written as zero,
-    `zero` the trailing zero fill.  The ranges the APM marks reserved — and the architected fields the
-    VMSA message does not carry — are written as zero. -/
+    `zero` the trailing zero fill, `mbz` a must-be-zero check of a range that is not written.  The ranges the
+    APM marks reserved — and the architected fields the VMSA message does not carry — are written as zero.
+    APM vol. 2 table B-4: reserved 0x3B8–0x3E7 (48 bytes), XCR0 0x3E8, VALID_BITMAP 0x3F0 (16 bytes),
+    X87_STATE_GPA 0x400, and from 0x408 the x87/SSE/AVX save slots, which a launch VMSA does not use (the
+    message carries them as one must-be-zero field of 1016 bytes up to 0x800): VALID_BITMAP and
+    X87_STATE_GPA are zero at launch, so a writer of launch VMSAs accepts them only as zero. -/
 def vmsaLayout : List (String × Nat × Nat × String) := [
   ("seg", 0x00, 0x10, "Es"), ("seg", 0x10, 0x20, "Cs"), ("seg", 0x20, 0x30, "Ss"), ("seg", 0x30, 0x40, "Ds"),
   ("seg", 0x40, 0x50, "Fs"), ("seg", 0x50, 0x60, "Gs"), ("seg", 0x60, 0x70, "Gdtr"), ("seg", 0x70, 0x80, "Ldtr"),
@@ -220,7 +224,8 @@ def vmsaLayout : List (String × Nat × Nat × String) := [
   ("resv", 0x380, 0x390, "Reserved_10"),
   ("le", 0x390, 0x398, "SwExitCode"), ("le", 0x398, 0x3A0, "SwExitInfo_1"), ("le", 0x3A0, 0x3A8, "SwExitInfo_2"),
   ("le", 0x3A8, 0x3B0, "SwScratch"), ("le", 0x3B0, 0x3B8, "SevFeatures"),
-  ("resv", 0x3B8, 0x3F0, "Reserved_11"), ("le", 0x3E8, 0x3F0, "Xcr0"),
+  ("resv", 0x3B8, 0x3E8, "Reserved_11"), ("le", 0x3E8, 0x3F0, "Xcr0"),
+  ("resv", 0x3F0, 0x400, "ValidBitmap"), ("resv64", 0x400, 0x408, "X87StateGpa"), ("mbz", 0x408, 0x800, "Reserved_12"),
   ("zero", 0x3F0, 0x670, "")]
 
 def sizeofVmsa : Nat := 0x670
